@@ -141,11 +141,16 @@ class World:
         self.decimals = {}
         srv.reset_log()
         bals = []
+        # look-alike denoms (same letters, other case): legal, different coins that are never registered anywhere
+        self.lookalikes = dict((d, d.upper()) for _, d in self.natives if d.upper() != d)
         for a in ACTORS:
             if a == "recv":
                 continue
             for _, d in self.natives:
                 bals.append([a, d, str(BAL)])
+            if a in ("attacker", "trader1", "trader2", "lp1"):
+                for d in self.lookalikes.values():
+                    bals.append([a, d, str(BAL)])
         r = srv.send({"op": "new", "balances": bals})
         self.codes = r["v"]
         self.factory = self._inst("factory", "owner", {"pair_code_id": self.codes["pair"], "token_code_id": self.codes["cw20"]}, admin="owner")
@@ -258,7 +263,7 @@ class World:
         contracts = [self.factory, self.router] + [p.addr for p in self.pairs]
         tok_contracts = [t[1] for t in self.tokens] + [p.lp for p in self.pairs] + [self.rogue]
         self.t_accounts = ACTORS + contracts + tok_contracts + self.extra_accounts
-        self.t_denoms = [d for _, d in self.natives]
+        self.t_denoms = [d for _, d in self.natives] + sorted(self.lookalikes.values())
         self.t_tokens = tok_contracts
         self.t_contracts = contracts + tok_contracts
         self.srv.send({"op": "track", "accounts": self.t_accounts, "denoms": self.t_denoms,
